@@ -219,6 +219,9 @@ def run_tlc(scratch, spec_dirs, module, cfg, workers=None, timeout=600, simulate
     mv = re.search(r"Error: Action property (\S+) is violated", p.stdout)
     if mv:
         r.violated = mv.group(1)
+    mv = re.search(r"Error: Temporal property (\S+) was violated", p.stdout)
+    if mv:
+        r.violated = mv.group(1)
     if "Temporal properties were violated" in p.stdout:
         r.violated = r.violated or "temporal"
     if "Error: Deadlock reached" in p.stdout:
